@@ -333,6 +333,17 @@ static void history(int steps, int containers_only) {
         if (fs < 1) break;
         static unsigned char buf[4096];
         size_t n = vg_encoding(buf, 512, 2);
+        /* one load in three is of a corrupted encoding: whatever the decoder built before it gave up must be released */
+        if (vh_randn(3) == 0 && n > 0) {
+          static const unsigned char junk[] = {0xff, 0x5f, 0x7f, 0x9f, 0xbf, 0xc1, 0x1c, 0x41, 0x61, 0x80, 0xa0, 0x00};
+          size_t at = vh_randn(n);
+          switch (vh_randn(4)) {
+            case 0: buf[at] = junk[vh_randn(sizeof junk)]; break;
+            case 1: memmove(buf + at + 1, buf + at, n - at); buf[at] = junk[vh_randn(sizeof junk)]; n++; break;
+            case 2: n = at; break;
+            default: memmove(buf + at, buf + at + 1, n - at - 1); n--; break;
+          }
+        }
         struct cbor_load_result r;
         op_begin();
         cbor_item_t* it = cbor_load(buf, n, &r);
